@@ -47,6 +47,23 @@ pub struct FaultWriter {
     pub out: Vec<u8>,
     pub fail_after: Option<usize>,
 }
+
+/// a writer that accepts at most `max` bytes per `write` call (legal for std::io::Write; only
+/// `write_all` may be relied upon to write everything)
+pub struct ShortWriter {
+    pub out: Vec<u8>,
+    pub max: usize,
+}
+impl Write for ShortWriter {
+    fn write(&mut self, buf: &[u8]) -> io::Result<usize> {
+        let n = buf.len().min(self.max);
+        self.out.extend_from_slice(&buf[..n]);
+        Ok(n)
+    }
+    fn flush(&mut self) -> io::Result<()> {
+        Ok(())
+    }
+}
 impl Write for FaultWriter {
     fn write(&mut self, buf: &[u8]) -> io::Result<usize> {
         if let Some(k) = self.fail_after {
@@ -159,6 +176,15 @@ pub fn check_one(rep: &Report, cfg: &Cfg, b: &Built, pats: &[Vec<u8>], data: &[u
     if !matches!(&r, Ok(Ok(()))) || w.out != want_out {
         fail(rep, "replace_all", cfg, pats, data, si, spare, None, format!("expected '{}', got '{}' ({:?})", show(&want_out), show(&w.out), r.map(|x| x.map_err(|e| e.to_string()))));
     }
+    // a writer with short writes (1 or 2 bytes per call) must still receive everything
+    if let Built::Top(t) = b {
+        let mut sw = ShortWriter { out: vec![], max: 1 + si % 2 };
+        let r = catch_unwind(AssertUnwindSafe(|| t.try_stream_replace_all(SchedReader { data, pos: 0, sched: SCHEDS[si], i: 0, fail_at: None }, &mut sw, &repl)));
+        rep.case(!want.is_empty());
+        if !matches!(&r, Ok(Ok(()))) || sw.out != want_out {
+            fail(rep, "replace_all(short-write writer)", cfg, pats, data, si, spare, None, format!("expected '{}', got '{}'", show(&want_out), show(&sw.out)));
+        }
+    }
     let mut w2 = FaultWriter { out: vec![], fail_after: None };
     let mut seen = vec![];
     let r = catch_unwind(AssertUnwindSafe(|| stream_replace_with(b, SchedReader { data, pos: 0, sched: SCHEDS[si], i: 0, fail_at: None }, &mut w2, &mut seen)));
@@ -217,6 +243,27 @@ pub fn check_one(rep: &Report, cfg: &Cfg, b: &Built, pats: &[Vec<u8>], data: &[u
     }
 }
 
+fn long_pattern_case(rep: &Report, longpat: &[u8]) {
+    let pats = vec![longpat.to_vec(), b"abba".to_vec()];
+    let mut data: Vec<u8> = vec![b'b'; 70_000];
+    data.extend_from_slice(longpat);
+    data.extend(vec![b'a'; 70_000]);
+    data.extend_from_slice(b"babbab");
+    data.extend_from_slice(longpat);
+    for engine in [Engine::TopAuto, Engine::LowContig, Engine::LowDfa, Engine::LowNonContig] {
+        let cfg = Cfg { engine, sk: StartKindC::U, mk: Kind::Std, ci: false, pre: true, dd: None, bc: true };
+        if let Ok(b) = build(&cfg, &pats) {
+            aho_corasick::verif::set_buffer_spare_capacity(None);
+            for si in [0usize, 4, 6] {
+                if si == 0 && engine != Engine::TopAuto {
+                    continue;
+                }
+                check_one(rep, &cfg, &b, &pats, &data, si, None, false, true, si != 0);
+            }
+        }
+    }
+}
+
 pub fn run(args: &Args) -> Report {
     let thorough = args.thorough();
     let seed = args.num("seed", 0);
@@ -246,6 +293,9 @@ pub fn run(args: &Args) -> Report {
     let mut lists = gen::lists(&pool, 3, if thorough { 1 } else { 9 }, seed);
     lists.push(vec![b"abababab".to_vec(), b"bab".to_vec()]);
     lists.push(vec![b"aaaaaaaaaaaa".to_vec(), b"aab".to_vec(), b"b".to_vec()]);
+    // a pattern longer than 8 KiB: the retained tail (min) times 8 exceeds the default capacity
+    let longpat: Vec<u8> = (0..9000usize).map(|i| b"ab"[(i * i / 7) % 2]).collect();
+    long_pattern_case(&rep, &longpat);
     let mut datas = gen::strings(b"ab", 0, if thorough { 7 } else { 5 });
     let mut rng = Rng(0x57 + seed as u64);
     for _ in 0..(if thorough { 40 } else { 10 }) {
